@@ -48,18 +48,10 @@ ASSUMPTIONS = ["process time zone is UTC for naive datetimes under timestamp-mil
                "precision <= floor(log10(2) * (8*size - 1)) for fixed); |scale| far below the decimal context's Emax",
                "aware datetimes whose UTC image lies outside datetime.min..datetime.max are outside the property "
                "(writing works, reading raises OverflowError; model and implementation agree on that)"]
-PARTIAL = ["C16_decimal_fixed / C16_decimal_never_altered are proved at full strength for the REPAIRED converter "
-           "(prepare_fixed_decimal_fixed); for the code as it is the proved statements are C16_decimal_fixed_partial / "
-           "C16_decimal_never_altered_partial (non-negative data, and negative data that is non-zero and fits); the remaining "
-           "cases are refuted for the current code by C16_decimal_fixed_refuted_current (negative overflow, F2) and "
-           "C16_decimal_fixed_negzero_refuted_current (negative zero)"]
+PARTIAL = []        # every theorem of props/C16.v is about the converters as they are in /repo now; the two
+#                     `_refuted_old` theorems are about model/LogicalOld.v (prepare_fixed_decimal before eff0ba2)
 
-# Which Gallina converter the implementation is compared with:
-#   False -> prepare_fixed_decimal        (the code as it is in /repo now: F2 and negative-zero defects present)
-#   True  -> prepare_fixed_decimal_fixed  (after the repair "raise when bits_req > 8*size" + "if sign and unscaled_datum")
-FIXED_REPAIRED = {"repaired": True, "current": False}.get(os.environ.get("VERIF_C16_FIXED_MODEL", ""), True)
-
-IMPORTS = "From Coq Require Import String.\nFrom FA Require Import model.Base model.Logical.\n"
+IMPORTS = "From Coq Require Import String.\nFrom FA Require Import model.Base model.Logical model.LogicalPos.\n"
 
 SIG_F2 = "C16:prepare_fixed_decimal:negative-overflow:stored-different-number"
 SIG_NEGZERO = "C16:prepare_fixed_decimal:negative-zero:stored-different-number"
@@ -832,8 +824,123 @@ def eval_position(case):
     return impl, True, None
 
 
+# model side of the positions (model/LogicalPos.v): schema shapes, and Python data <-> Gallina trees / printed trees
+SHAPES = {   # "L" the annotated leaf, "N" the named fixed by reference, "P" plain, A array, M map, U union, R record
+    "top-level": "L", "record-field": ("R", [("a", "P"), ("f", "L")]), "array-item": ("A", "L"), "map-value": ("M", "L"),
+    "union-branch": ("U", ["P", "L"]), "union-in-record": ("R", [("f", ("U", ["P", "L"])), ("g", ("U", ["P", "P"]))]),
+    "map-of-arrays": ("M", ("A", "L")), "array-of-maps": ("A", ("M", "L")), "map-in-record": ("R", [("m", ("M", "L"))]),
+    "array-of-unions": ("A", ("U", ["P", "L"])),
+    "field-by-name": ("R", [("d", "L"), ("f", "N")]), "map-value-by-name": ("R", [("d", "L"), ("m", ("M", "N"))]),
+    "array-item-by-name": ("R", [("d", "L"), ("a", ("A", "N"))]), "union-branch-by-name": ("R", [("d", "L"), ("u", ("U", ["P", "N"]))]),
+}
+LTYPE_TERMS = {"date": "LDate", "time-millis": "LTimeMillis", "time-micros": "LTimeMicros", "timestamp-millis": "LTsMillis",
+               "timestamp-micros": "LTsMicros", "local-timestamp-millis": "LLocalTsMillis", "local-timestamp-micros": "LLocalTsMicros",
+               "uuid": "LUuid", "bytes-decimal": "(LDecBytes 12 3)", "fixed-decimal": "(LDecFixed 18 4 8)"}
+
+
+def lval_term(x):
+    """Python logical object -> Gallina lval"""
+    if isinstance(x, D.datetime):
+        wall = (x.replace(tzinfo=None) - EPOCH_NAIVE) // US
+        return "(LNaive %s)" % z(wall) if x.tzinfo is None else "(LAware %s %s)" % (z(wall), z(x.utcoffset() // US))
+    if isinstance(x, D.date):
+        return "(LDateV %d)" % x.toordinal()
+    if isinstance(x, D.time):
+        return "(LTimeV %d %d %d %d)" % (x.hour, x.minute, x.second, x.microsecond)
+    if isinstance(x, uuid.UUID):
+        return "(LUuidV %d)" % x.int
+    sg, ds, e = x.as_tuple()
+    return "(LDecimalV %s %s %s)" % ("true" if sg else "false", zl(ds), z(e))
+
+
+def canon_dec(c, e):
+    if c == 0:
+        return "X0e0"
+    while c % 10 == 0:
+        c, e = c // 10, e + 1
+    return "X%de%d" % (c, e)
+
+
+def lval_show(x):
+    """Python object read back -> the text show_lval prints (decimals in canonical coefficient / exponent)"""
+    if isinstance(x, D.datetime):
+        wall = (x.replace(tzinfo=None) - EPOCH_NAIVE) // US
+        return "N%d" % wall if x.tzinfo is None else "A%d.%d" % (wall, x.utcoffset() // US)
+    if isinstance(x, D.date):
+        return "D%d" % x.toordinal()
+    if isinstance(x, D.time):
+        return "T%d.%d.%d.%d" % (x.hour, x.minute, x.second, x.microsecond)
+    if isinstance(x, uuid.UUID):
+        return "U%d" % x.int
+    if isinstance(x, Decimal):
+        sg, ds, e = x.as_tuple()
+        return canon_dec(int("".join(map(str, ds))) * (-1 if sg else 1), e)
+    return "raw:%r" % (x,)
+
+
+def schema_term(sh, lt):
+    if sh == "L":
+        return "(SLogical %s)" % lt
+    if sh == "N":
+        return "(SNamed 7)"
+    if sh == "P":
+        return "SPlain"
+    if sh[0] == "A":
+        return "(SArrayOf %s)" % schema_term(sh[1], lt)
+    if sh[0] == "M":
+        return "(SMapOf %s)" % schema_term(sh[1], lt)
+    if sh[0] == "U":
+        return "(SUnionOf [%s])" % "; ".join(schema_term(b, lt) for b in sh[1])
+    return "(SRecordOf [%s])" % "; ".join(schema_term(f, lt) for _, f in sh[1])
+
+
+def walk(sh, v, leaf, gallina):
+    """Python datum (or value read back) -> Gallina tree term (gallina=True) or the text show_tree prints"""
+    if sh in ("L", "N"):
+        return "(TLeaf %s)" % leaf(v) if gallina else leaf(v)
+    if sh == "P":
+        n = 0 if v is None else v
+        return "(TPlain %d)" % n if gallina else ("P%d" % n if isinstance(n, int) and not isinstance(n, bool) else "raw:%r" % (n,))
+    if sh[0] == "A":
+        if not isinstance(v, list):
+            return "shape:%r" % (v,)
+        items = [walk(sh[1], x, leaf, gallina) for x in v]
+        return "(TList [%s])" % "; ".join(items) if gallina else "[" + "".join(i + "," for i in items) + "]"
+    if sh[0] == "M":
+        if not isinstance(v, dict):
+            return "shape:%r" % (v,)
+        items = [(i + 1, walk(sh[1], x, leaf, gallina)) for i, (_, x) in enumerate(v.items())]
+        return "(TMap [%s])" % "; ".join("(%d, %s)" % it for it in items) if gallina else "{" + "".join("%d:%s," % it for it in items) + "}"
+    if sh[0] == "U":
+        i = 0 if v is None else max(j for j, b in enumerate(sh[1]) if b != "P") if any(b != "P" for b in sh[1]) else 0
+        inner = walk(sh[1][i], v, leaf, gallina)
+        return "(TBranch %d %s)" % (i, inner) if gallina else "b%d(%s)" % (i, inner)
+    if not isinstance(v, dict):
+        return "shape:%r" % (v,)
+    items = [walk(f, v.get(n), leaf, gallina) for n, f in sh[1]]
+    return "(TRec [%s])" % "; ".join(items) if gallina else "<" + "".join(i + "," for i in items) + ">"
+
+
+def canon_model_tree(text):
+    """bring the decimals of a printed model tree into canonical coefficient / exponent form"""
+    import re
+    return re.sub(r"X(-?\d+)e(-?\d+)", lambda m: canon_dec(int(m.group(1)), int(m.group(2))), text)
+
+
 def run_positions(ctx, q):
+    plan = []
+    for name, (L, data) in POS_LOGICALS.items():
+        positions = list(POSITIONS) + (list(BY_NAME) if L.get("type") == "fixed" else [])
+        for pos in positions:
+            mk_datum = (POSITIONS.get(pos) or BY_NAME[pos])[1]
+            for i in range(len(data)):
+                lt = LTYPE_TERMS[name]
+                term = "c_roundtrip_tree 0 [(7, SLogical %s)] %s %s" % (lt, schema_term(SHAPES[pos], lt),
+                                                                        walk(SHAPES[pos], mk_datum(data[i][0]), lval_term, True))
+                plan.append((name, pos, i, term))
+    job = q.add("fun x => x", plan and [t[3] for t in plan], per=10)
     yield
+    model = {(name, pos, i): canon_model_tree(m) for (name, pos, i, _), m in zip(plan, job[3])}
     n = 0
     for name, (L, data) in POS_LOGICALS.items():
         positions = list(POSITIONS) + (list(BY_NAME) if L.get("type") == "fixed" else [])
@@ -848,9 +955,16 @@ def run_positions(ctx, q):
                     ctx.count("corr:container-positions", (name, pos, mode, i))
                     if not ok:
                         sym = "raised" if "raised" in (why or "") else "stored-bytes-differ" if "bytes written" in why else "read-back-not-converted-or-differs"
-                        ctx.violation("corr:container-positions", case, impl=impl, model="container of the top-level result",
+                        ctx.violation("corr:container-positions", case, impl=impl, model=model[(name, pos, i)],
                                       signature="C16:container-position:%s:%s" % (pos, sym), found_input=True,
                                       detail="%s in position %s, read %s: %s" % (name, pos, mode, why))
+                        continue
+                    # the model's read_tree (write_tree v) (= normal_tree v, theorem C16_positions) printed vs the value read back
+                    shown = walk(SHAPES[pos], impl["back"], lval_show, False)
+                    if shown != model[(name, pos, i)]:
+                        ctx.violation("corr:container-positions", case, impl=shown, model=model[(name, pos, i)],
+                                      signature="C16:position:model-differs", found_input=False,
+                                      detail="value read back differs from the model's read_tree (write_tree v)")
     ctx.notes["container_position_cases"] = n
     ctx.notes["container_positions"] = list(POSITIONS) + list(BY_NAME)
 
@@ -1106,10 +1220,9 @@ def run_decimals(ctx, q):
     rng = ctx.rng
     cases = gen_decimal_cases(ctx)
     finite = [c for c in cases if not isinstance(c["datum"][2], str)]
-    rep = "true" if FIXED_REPAIRED else "false"
     jb = q.add("c_dec_bytes", [dec_item(c) for c in finite if c["kind"] == "bytes-decimal"], per=25)
-    jf = q.add("c_dec_fixed " + rep, [dec_item(c) for c in finite if c["kind"] == "fixed-decimal"], per=25)
-    jp = q.add("c_prep_fixed " + rep, [dec_item(c) for c in finite if c["kind"] == "fixed-decimal"], per=25)
+    jf = q.add("c_dec_fixed", [dec_item(c) for c in finite if c["kind"] == "fixed-decimal"], per=25)
+    jp = q.add("c_prep_fixed", [dec_item(c) for c in finite if c["kind"] == "fixed-decimal"], per=25)
     rcases = gen_read_decimal_cases(ctx)
     jr = q.add("c_read_dec", ['(%d,%d,hx "%s")' % (p, sc, raw.hex()) for p, sc, raw in rcases], per=25)
     yield
@@ -1304,8 +1417,6 @@ def run(ctx):
     for v in ctx.violations:
         by_sig[v["signature"]] = by_sig.get(v["signature"], 0) + 1
     ctx.notes["failing_cases_by_signature"] = by_sig
-    ctx.notes["fixed_decimal_model_binding"] = "prepare_fixed_decimal_fixed (repaired)" if FIXED_REPAIRED else \
-        "prepare_fixed_decimal (the code as it is now)"
 
 
 def replay(ctx, rep):
@@ -1326,7 +1437,7 @@ def replay(ctx, rep):
     elif k in ("bytes-decimal", "fixed-decimal"):
         impl, ok, why, _ = eval_decimal(c)
         if not isinstance(c["datum"][2], str):
-            fn = "c_dec_bytes" if k == "bytes-decimal" else "c_dec_fixed " + ("true" if FIXED_REPAIRED else "false")
+            fn = "c_dec_bytes" if k == "bytes-decimal" else "c_dec_fixed"
             print("model (written|read back):", model_batch(ctx, fn, [dec_item(c)], "rp")[0])
     elif k == "sweep":
         print("re-run the thorough tier to repeat a sweep; first failing values:", c.get("failing"))
